@@ -13,6 +13,7 @@
 import SimVerif.Lemmas.AcceptStep
 
 namespace SimVerif
+open Hs
 
 /-! ### a connect needs a listener; otherwise: refused after 50 ms -/
 
@@ -48,7 +49,7 @@ theorem C07_connect_needs_listener (n : NetSt) (now : Int) (name : String) (targ
   · constructor
     · intro _
       obtain ⟨rname, rs, l1, l2, l3⟩ := hl
-      obtain ⟨_, _, _, _, _, c6, _, syn, c8, c9, c10, _⟩ := internalConnect_ok n name target s.view rname rs.view
+      obtain ⟨_, _, _, _, _, c6, _, syn, c8, c9, c10, _⟩ := internalConnect_ok n name target s.hview rname rs.hview
         (by simp [NetSt.sv, hs]) l1 (by simp [NetSt.sv, l2]) (by rw [← isListening_view]; exact l3)
       refine ⟨syn, by rw [d2, c8]; rfl, c9, c10, ?_, ?_, ?_⟩
       · rw [d1]; simp
@@ -64,7 +65,7 @@ theorem C07_refused (n : NetSt) (now : Int) (name : String) (target : Ep) (h : N
     (hfam : s.bound.isV4 = target.isV4) (hnl : ¬ n.Listening target) :
     (n.tcpConnect now name target h).2 = [.armAfter name 0 50000000 (.tcpConnectRefused name h)]
     ∧ (0 : Int) < 50000000
-    ∧ forwards (n.tcpConnect now name target h).2 = []
+    ∧ fwdPkts (n.tcpConnect now name target h).2 = []
     ∧ ((n.tcpConnect now name target h).1.tcp? name).bind (·.chan) = none
     ∧ ((n.tcpConnect now name target h).1.tcp? name).bind (·.connectH) = s.connectH
     ∧ (n.tcpConnect now name target h).1.chans = n.chans
@@ -125,10 +126,10 @@ theorem C07_pairing_fifo (hae : aep ≠ {}) (ls : List HLbl)
   · rw [hc, hf, List.append_assoc, ← hlen, List.take_left']
     rfl
   · intro sa ac' hsa hac' hop
-    have hva' : s.net.sv a = some sa.view := by simp [NetSt.sv, hsa]
+    have hva' : s.net.sv a = some sa.hview := by simp [NetSt.sv, hsa]
     rw [hva] at hva'; cases hva'
     have : ac' = ac := by
-      have h1 : sa.view.acc = some ac' := hac'
+      have h1 : sa.hview.acc = some ac' := hac'
       rw [hac] at h1; exact (Option.some.inj h1).symm
     subst this
     have := hdr hop; subst this
@@ -198,7 +199,7 @@ theorem C07_connect_matched (hae : aep ≠ {}) (ls : List HLbl)
           · exact ⟨e, he, hec⟩
   exact key _ hnd ⟨e, he, q4⟩
 
-theorem cv_of_chan {n : NetSt} {c : Nat} {ch : Chan} (h : n.chans[c]? = some ch) : n.cv c = some ch.view := by
+theorem cv_of_chan {n : NetSt} {c : Nat} {ch : Chan} (h : n.chans[c]? = some ch) : n.cv c = some ch.hview := by
   simp [NetSt.cv, NetSt.chan?, h]
 
 /-- **`C07_views`.** For every completed accept, with `ch` its channel and `d` the dial that
@@ -244,8 +245,8 @@ theorem C07_views (hae : aep ≠ {}) (ls : List HLbl)
     simp only [Chan.remoteIdx, this, if_true, Chan.vis]
     rw [r2]; exact r5
   · intro sk hsk hskc
-    have hv : s.net.sv op.peer = some sk.view := by simp [NetSt.sv, hsk]
-    obtain ⟨p1, _⟩ := h.inv.peer_b e he op c sk.view q1 q2 hv hskc
+    have hv : s.net.sv op.peer = some sk.hview := by simp [NetSt.sv, hsk]
+    obtain ⟨p1, _⟩ := h.inv.peer_b e he op c sk.hview q1 q2 hv hskc
     have hb : sk.bound = aep := p1
     refine ⟨hb, ?_⟩
     have : (s.net.chans[c].ep0 == sk.bound) = false := by
@@ -285,34 +286,34 @@ theorem C07_no_crosstalk (hae : aep ≠ {}) (ls : List HLbl)
   rw [q3] at t1; cases t1
   have hpeer : ∀ sk, s.net.tcp? op.peer = some sk → sk.chan = some c → sk.bound = aep ∧ sk.fwd = some g := by
     intro sk hsk hskc
-    have hv : s.net.sv op.peer = some sk.view := by simp [NetSt.sv, hsk]
-    obtain ⟨p1, p2⟩ := h.inv.peer_b e he op c sk.view q1 q2 hv hskc
+    have hv : s.net.sv op.peer = some sk.hview := by simp [NetSt.sv, hsk]
+    obtain ⟨p1, p2⟩ := h.inv.peer_b e he op c sk.hview q1 q2 hv hskc
     exact ⟨p1, by rw [← q3]; exact p2⟩
   refine ⟨op, c, s.net.chans[c], s.dialLog[c], f0, g, q1, q2, hch, hd, s1, q3, q4, s3, ?_, ?_, ?_, ?_⟩
   · have := s4; simp only [route0] at this; exact this
   · have := t2; simp only [route1] at this; exact this
   · intro sk hsk hskc
     obtain ⟨hb, hf⟩ := hpeer sk hsk hskc
-    have hv : s.net.sv op.peer = some sk.view := by simp [NetSt.sv, hsk]
-    refine ⟨hf, (h.inv.s_fwd op.peer sk.view g hv hf).2, ?_⟩
+    have hv : s.net.sv op.peer = some sk.hview := by simp [NetSt.sv, hsk]
+    refine ⟨hf, (h.inv.s_fwd op.peer sk.hview g hv hf).2, ?_⟩
     have : (s.net.chans[c].ep0 == sk.bound) = false := by rw [hb]; simp; exact r6
     simp [Chan.remoteIdx, this, Chan.hops]
   · intro o sk hsk hskc hb
-    have hv : s.net.sv o = some sk.view := by simp [NetSt.sv, hsk]
+    have hv : s.net.sv o = some sk.hview := by simp [NetSt.sv, hsk]
     have hoa : o ≠ a := by
       intro hoa; subst hoa
       obtain ⟨va, _, w1, _, w3⟩ := h.inv.a_ex
       rw [hv] at w1; cases w1
       have : sk.chan = none := w3
       rw [this] at hskc; cases hskc
-    obtain ⟨cv', d', p1, p2, p3⟩ := h.inv.conn o sk.view c hoa hv hskc
+    obtain ⟨cv', d', p1, p2, p3⟩ := h.inv.conn o sk.hview c hoa hv hskc
     rw [hcv] at p1; cases p1
     rw [hd] at p2; cases p2
     have hf : sk.fwd = some f0 := by
       rcases p3 with ⟨_, _, p6⟩ | ⟨p4, _⟩
       · rw [← s1]; exact p6
       · exact absurd (hb.symm.trans p4) r6
-    refine ⟨hf, (h.inv.s_fwd o sk.view f0 hv hf).2, ?_⟩
+    refine ⟨hf, (h.inv.s_fwd o sk.hview f0 hv hf).2, ?_⟩
     have : (s.net.chans[c].ep0 == sk.bound) = true := by rw [hb]; simp
     simp [Chan.remoteIdx, this, Chan.hops]
 
@@ -344,9 +345,9 @@ theorem C07_write_route (n : NetSt) (name : String) (bufs : List (List UInt8)) (
             · simp only [Except.ok.injEq, Prod.mk.injEq] at h
               exact ⟨s, ch, rfl, hc, h.1.symm⟩
 
-/-- every segment the loop forwards carries exactly that route -/
+/-- every segment the loop fwdPkts carries exactly that route -/
 theorem C07_segment_route (n : NetSt) (now : Int) (name : String) (hops : List String) (seg : List UInt8) :
-    ∀ q ∈ forwards (n.tcpSendSeg now name hops seg).2, q.hops = hops ∧ q.ty = .payload ∧ q.payload = seg := by
+    ∀ q ∈ fwdPkts (n.tcpSendSeg now name hops seg).2, q.hops = hops ∧ q.ty = .payload ∧ q.payload = seg := by
   unfold NetSt.tcpSendSeg
   cases hs : n.tcp? name with
   | none => simp
@@ -364,9 +365,9 @@ theorem C07_segment_route (n : NetSt) (now : Int) (name : String) (hops : List S
     split at hq
     · simp at hq
     · rename_i ch _
-      simp only [forwards_append] at hq
-      rw [forwards_ite_single _ _ (by intro c h; cases h)] at hq
-      simp [forwards] at hq; rw [hq]
+      simp only [fwdPkts_append] at hq
+      rw [fwdPkts_ite_single _ _ (by intro c h; cases h)] at hq
+      simp [fwdPkts] at hq; rw [hq]
 
 /-! ### non-vacuity: a concrete history (decidable form of the side condition) -/
 
